@@ -453,6 +453,18 @@ def p_objective_value(a):
                                             are_sums_in_ascending_order=bool(a["sorted"])))}
 
 
+def p_objective_history(a):
+    """ONE objective object evaluated on a sequence of sum vectors (of varying lengths): an objective must not remember anything"""
+    o = objective(a["o"], a.get("ok", 0))
+    out = []
+    for sums, srt, kind in a["seq"]:
+        try:
+            out.append(_int(o.value_to_minimize(seq_of(sums, kind), are_sums_in_ascending_order=bool(srt))))
+        except Exception as e:      # noqa
+            out.append("exc:" + type(e).__name__)
+    return {"values": out}
+
+
 def p_weighted_value(a):
     sc = a.get("wscale", 1)       # weights are w/sc (sc a power of two: exactly representable fractions such as 0.25, 0.5, 1.5)
     o = OBJ.MaximizeSmallestWeightedSum([w / sc for w in a["weights"]] if sc != 1 else list(a["weights"]))
@@ -586,6 +598,35 @@ def p_ckk_nodes(a):
     return {"num": cnt[0], "bins": enc_binsarray(b, keep, decode)}
 
 
+def p_snp_trace(a):
+    """snp / rnp called with a bins-manager; InExclusionBinTree.generate_tree (a lazy generator method, patched on the CLASS) is wrapped so
+    that every sub-collection the consumer pulls is logged (as item values) at the moment it is yielded"""
+    from prtpy.inclusion_exclusion_tree import InExclusionBinTree
+    orig = InExclusionBinTree.generate_tree
+    tr = []
+
+    def traced(self):
+        for subset in orig(self):
+            tr.append([_int(self.valueof(x)) for x in subset])
+            yield subset
+    items, valueof, decode = algo_items(a)
+    keep = a.get("keep", True)
+    InExclusionBinTree.generate_tree = traced
+    res = {}
+    try:
+        try:
+            b = PART_ALGOS[a["algo"]]()(binner_of(keep, valueof), a["k"], items)
+            res["bins"] = enc_binsarray(b, keep, decode)
+        except CaseTimeout:
+            raise
+        except Exception as e:      # noqa
+            res["exc"] = type(e).__name__
+    finally:
+        InExclusionBinTree.generate_tree = orig
+    res["trace"] = tr
+    return res
+
+
 def p_binner_ops(a):
     """executes a sequence of bins-manager operations on the real managers; after every
     operation reports what every handle ever created shows"""
@@ -662,7 +703,7 @@ def p_history(a):
 
 
 PORTS = {
-    "numitems": p_numitems, "ilp_full": p_ilp_full, "history": p_history, "bc_trace": p_bc_trace, "ckk_nodes": p_ckk_nodes,
+    "numitems": p_numitems, "ilp_full": p_ilp_full, "history": p_history, "bc_trace": p_bc_trace, "ckk_nodes": p_ckk_nodes, "objective_history": p_objective_history, "snp_trace": p_snp_trace,
     "binner_ops": p_binner_ops,
     "partition": p_partition, "pack": p_pack, "cg_clock": p_cg_clock, "cbldm_clock": p_cbldm_clock,
     "cbldm_args": p_cbldm_args, "ckk_generator": p_ckk_generator, "algo_direct": p_algo_direct,
